@@ -144,6 +144,7 @@ package queues
 //@   ensures [ri]    RI_PQ(result)
 //@   inlines container/heap.Init
 //@   loop container/heap.Init#1: invariant n == 0 && i == 0 - 1
+//@   dead_loop container/heap.Init.loop1
 //@   ghost after call container/heap.Init: pq.$mem := $emptyset()
 
 //@ func PriorityQueue.Len
@@ -195,6 +196,7 @@ package queues
 //@   ensures [count] q.insertionCount == old(q.insertionCount) && q.closed == old(q.closed)
 //@   inlines container/heap.Init
 //@   loop container/heap.Init#1: invariant n == 0 && i == 0 - 1
+//@   dead_loop container/heap.Init.loop1
 //@   ghost after call container/heap.Init: q.internal.$mem := $emptyset()
 
 //@ func PriorityQueue.Close
